@@ -12,7 +12,7 @@ import json
 
 from ..common import MachineryError, Verdict, require, scratch, seed
 from ..corpus import library
-from ..proto import default_corpus, prepare_world, run_drivers_parallel
+from ..proto import default_corpus, full_corpus, prepare_world, run_drivers_parallel
 from .. import common
 from ._proto_common import mode_violations, short
 from .c02 import collect
@@ -22,11 +22,11 @@ PROP = "C15"
 
 def run(tier, corrupt=False):
     v = Verdict(PROP, tier)
-    progs = default_corpus()
     types = library()
-    interesting = [p for p in progs if any(k in json.dumps(p["code"]) for k in ('"chunked"', '"switch"', "Named", "Coords", "Tail", "Item", "HDummyAfter"))]
-    sel = interesting if tier == "thorough" else interesting[(seed() % 2)::2]
     with scratch("c15-") as tmp:
+        progs = full_corpus(tmp, tier, n_generated=(60 if tier == "quick" else 600))
+        interesting = [p for p in progs if any(k in json.dumps(p["code"]) for k in ('"chunked"', '"switch"', "Named", "Coords", "Tail", "Item", "HDummyAfter"))]
+        sel = interesting if tier == "thorough" else interesting[(seed() % 2)::2]
         nf = 5 if tier == "quick" else 8
         r1, s1 = collect(tier, tmp, sel, types, "ser", rich=False, nfuel=nf, invariants=("SerLeavesModeAsFound", "PNoSilentFailure"),
                          properties=("PModeRestored",), tag="sf")
